@@ -16,6 +16,7 @@ uint64_t yk_an[YK_NALLOC], yk_aa[YK_NALLOC];
 uint8_t yk_al[YK_NALLOC];
 uint64_t yk_clock_now;
 uint32_t yk_layers;
+uint32_t yk_sleeps;
 uint32_t yk_nev;
 uint32_t yk_ev_kind[YK_NEV];
 const void* yk_ev_ptr[YK_NEV];
